@@ -3,8 +3,9 @@
      dec <fill 0|1> n1 n2 ...        -> ok r1 r2 ...     one Deconflicter, requests in order
      camel s | upfirst s | lowfirst s | ident s
      const <tlname> | file <tlname> | global <tlname>
-     struct f1:k f2:k ...            -> ok F1,F2 | A1,A2   k = n (no accessors) b (bit) f (full)
-     oblig_consts n... | oblig_files n... | oblig_globals n... | oblig_fields <m1,m2,..|-> f:k ...
+     struct f1:k f2:k ...            -> ok F1,F2 | A1,A2 | E1,E2 (all Go names | accessors | emitted fields)
+                                        k = n (no accessors) N (bit, no accessors) b (bit, Set/IsSet) f (Set/Clear/IsSet) F (bit with Clear: unused)
+     oblig_consts n... | oblig_files n... | oblig_dirs n... | oblig_globals n... | oblig_fields <m1,m2,..|-> f:k ...
      lists                           -> struct_methods | function_methods | helper_idents | always | closed *)
 open Conv
 open BuildModel
@@ -29,7 +30,8 @@ let field_of_string (s : string) : field_spec =
   | Some i ->
       let k = String.sub s (i + 1) (String.length s - i - 1) in
       { fname = str_of_string (String.sub s 0 i);
-        facc = (match k with "n" -> AccNone | "b" -> AccBit | "f" -> AccFull | _ -> failwith ("bad kind " ^ s)) }
+        facc = (match k with "n" | "N" -> AccNone | "b" -> AccBit | "f" | "F" -> AccFull | _ -> failwith ("bad kind " ^ s));
+        fbit = (k = "N" || k = "b" || k = "F") }
   | None -> failwith ("bad field " ^ s)
 
 let names (l : str list) : string = match l with [] -> "-" | _ -> String.concat "," (List.map string_of_str l)
@@ -49,10 +51,12 @@ let run = function
   | ["global"; n] -> "ok " ^ string_of_str (global_head (tlname_of_string n))
   | ["file"; n] -> "ok " ^ string_of_str (file_name (tlname_of_string n))
   | "struct" :: fs ->
-      let (gos, accs) = struct_scope (List.map field_of_string fs) in
-      "ok " ^ names gos ^ " | " ^ names accs
+      let fl = List.map field_of_string fs in
+      let (gos, accs) = struct_scope fl in
+      "ok " ^ names gos ^ " | " ^ names accs ^ " | " ^ names (struct_emitted_fields fl)
   | "oblig_consts" :: ns -> "ok " ^ b2s (consts_ok (List.map tlname_of_string ns))
   | "oblig_files" :: ns -> "ok " ^ b2s (files_ok (List.map tlname_of_string ns))
+  | "oblig_dirs" :: ns -> "ok " ^ b2s (dirs_ok (List.map tlname_of_string ns))
   | "oblig_globals" :: ns -> "ok " ^ b2s (globals_ok (List.map tlname_of_string ns))
   | "oblig_fields" :: ms :: fs ->
       let ms = if ms = "-" then [] else List.map str_of_string (String.split_on_char ',' ms) in
